@@ -403,6 +403,8 @@ pub enum WriteFault {
     Short(usize),
     /// never fails hard; reports `Interrupted` on the listed call indices
     Interrupt(usize),
+    /// all writes succeed; the first `n` calls of `flush` report `Interrupted`, later ones succeed
+    FlushInterrupt(usize),
 }
 
 pub struct FaultWriter {
@@ -469,6 +471,10 @@ impl Write for FaultWriter {
                 self.out.extend_from_slice(&buf[..n]);
                 Ok(n)
             }
+            WriteFault::FlushInterrupt(_) => {
+                self.out.extend_from_slice(buf);
+                Ok(buf.len())
+            }
             WriteFault::Interrupt(at) => {
                 if call == at {
                     self.faults_reported += 1;
@@ -484,6 +490,12 @@ impl Write for FaultWriter {
         if let WriteFault::Flush(kind) = self.fault {
             self.faults_reported += 1;
             return Err(io::Error::new(kind, "injected flush fault"));
+        }
+        if let WriteFault::FlushInterrupt(n) = self.fault {
+            if self.faults_reported < n {
+                self.faults_reported += 1;
+                return Err(io::Error::new(ErrorKind::Interrupted, "injected interrupted flush"));
+            }
         }
         Ok(())
     }
